@@ -51,6 +51,8 @@ def oracle(case, line):
     nids = int(case.split()[1])
     words = [0] * nids
     runs_by_key = {}
+    state_now = [0] * n
+    queued_at_enter = {}
     pushes = skips = 0
     for tok in toks:
         f = tok.split(":")
@@ -60,7 +62,8 @@ def oracle(case, line):
         label = f[1]
         words_prev = words
         words = [int(x) for x in f[2].split(",")] if f[2] else []
-        intr = f[3]
+        state_prev = state_now
+        state_now = [int(x) for x in f[3]]
         evs = f[4].split("+") if len(f) > 4 else []
         for e in evs:
             if e[0] == "p":
@@ -86,8 +89,14 @@ def oracle(case, line):
         if label == "cb_interrupt":
             u = pending_post[t]
             interrupted.add(u)
-            if intr[info[u]["tgt"]] != "1":
-                bad.append(("first-push-interrupt", "do_interrupt step did not leave the target's poll interrupted"))
+            tg = info[u]["tgt"]
+            if tg < len(state_prev) and state_prev[tg] == 1 and state_now[tg] != 3:
+                bad.append(("first-push-interrupt", "do_interrupt on a polling, not yet interrupted target did not set flag_interrupted"))
+        if label == "poll_enter":
+            # the timeout decision is taken in this step (fetch_or + has_any_callbacks)
+            queued_at_enter[t] = list(queue[(t, "n")] + queue[(t, "i")])
+        if label == "poll_wait_full" and queued_at_enter.get(t):
+            bad.append(("poll-timeout-wait", "thread %d decided on the FULL poll timeout although callbacks %s were already queued for it when it entered poll (posted while it was not polling, so do_interrupt was a no-op)" % (t, ",".join(queued_at_enter[t]))))
         if label == "pc_store":
             cur_oi[t] = disp_oi[t][ndisp[t]] if ndisp[t] < len(disp_oi[t]) else False
             ndisp[t] += 1
